@@ -42,8 +42,13 @@ RULES = {
     "any other walk of the links: the primitive answers with the existing box when the value already sits at the insertion point (a move "
     "that changes nothing), and then `.next` is the following element, so the rest of the batch lands one place too late "
     "(`insert_before(C, [B, X])` with B in front of C puts X after C - an iterator parked on C yields a node inserted before it)",
+    "R10": "what the recursive traversal does after handing out a node does not depend on whether the node still belongs to the graph: in "
+    "the generators of the traversal module, no test between `yield <node>` and the descent into that node's subgraphs (guard clauses and "
+    "enclosing conditions of the `yield from`) reads the node's graph link (`<node>.graph` / `._graph`) or asks whether the node is still "
+    "a member of a container - the consumer may remove the node it has just been given, and the nodes of its subgraphs were present at "
+    "the start and were never touched, so they are still yielded",
 }
-FLOORS = {"R1": 3, "R2": 4, "R3": 8, "R4": 3, "R5": 1, "R6": 5, "R7": 6, "R8": 1, "R9": 1}
+FLOORS = {"R1": 3, "R2": 4, "R3": 8, "R4": 3, "R5": 1, "R6": 5, "R7": 6, "R8": 1, "R9": 1, "R10": 1}
 EXPLANATION = (
     "Checks the structural invariants the tombstone scheme of the doubly linked node list depends on: who writes "
     "which link, control dependence of every yield on the erased test, paired updates of length and map (CFG "
@@ -623,7 +628,67 @@ def rule_r9(ctx):
     ctx.require(n >= 1, "no loop over the single-insert primitive found in the linked set")
 
 
+def rule_r10(ctx):
+    m = ctx.repo.module("onnx_ir.traversal")
+    n = 0
+    for f in ctx.repo.live(m.all_funcs):
+        if isinstance(f.node, ast.Lambda):
+            continue
+        for lp in (x for x in own_nodes(f.node) if isinstance(x, ast.For) and isinstance(x.target, ast.Name)):
+            v = lp.target.id
+            ys = [i for i, s_ in enumerate(lp.body) if isinstance(s_, ast.Expr) and isinstance(s_.value, ast.Yield) and norm(s_.value.value) == v]
+            if not ys:
+                continue
+            after = lp.body[ys[0] + 1:]
+            # the descent: a later `yield from <call taking the node>` (possibly under conditions)
+            desc = [x for st in after for x in ast.walk(st) if isinstance(x, ast.YieldFrom) and any(isinstance(y, ast.Name) and y.id == v for y in ast.walk(x.value))]
+            if not desc:
+                continue
+            n += 1
+            # locals of the loop body bound to an expression that reads the link
+            def reads_link(e, depth=0):
+                for x in ast.walk(e):
+                    if isinstance(x, ast.Attribute) and isinstance(x.value, ast.Name) and x.value.id == v and x.attr in ("graph", "_graph"):
+                        return x
+                    if isinstance(x, ast.Compare) and any(isinstance(o, (ast.In, ast.NotIn)) for o in x.ops) and isinstance(x.left, ast.Name) and x.left.id == v:
+                        return x
+                    if isinstance(x, ast.Name) and x.id != v and depth < 2:
+                        for a in (y for st in after for y in ast.walk(st)):
+                            if isinstance(a, ast.Assign) and any(isinstance(t, ast.Name) and t.id == x.id for t in a.targets):
+                                r = reads_link(a.value, depth + 1)
+                                if r is not None:
+                                    return r
+                return None
+
+            tests = []
+            d = desc[0]
+            # enclosing conditions of the descent inside the loop body
+            p_ = getattr(d, "_parent", None)
+            top = None
+            while p_ is not None and p_ is not lp:
+                if isinstance(p_, (ast.If, ast.While)):
+                    tests.append(p_.test)
+                top, p_ = p_, getattr(p_, "_parent", None)
+            # guard clauses between the yield and the descent
+            for st in after:
+                if st is top:
+                    break
+                for g in ast.walk(st):
+                    if isinstance(g, ast.If) and any(isinstance(y, (ast.Continue, ast.Break, ast.Return)) for b in (g.body, g.orelse) for z in b for y in ast.walk(z)):
+                        tests.append(g.test)
+            bad = None
+            for t in tests:
+                bad = bad or reads_link(t)
+            ctx.check("R10", f"{f.local}: the descent after `yield {v}` does not ask whether `{v}` is still in the graph", bad is None, f, bad if bad is not None else d,
+                      f"between `yield {v}` and the descent into its subgraphs a test reads `{norm(bad) if bad is not None else ''}`: when the consumer removes the node it has "
+                      "just been handed, the traversal skips the nodes of that node's subgraphs - nodes that were present at the start and never touched are not yielded",
+                      how="tests governing the `yield from` that follows `yield <node>` in the per-node loop (guard clauses, enclosing ifs, through locals): no read of <node>.graph / membership",
+                      construct=f"descent conditional on {norm(bad) if bad is not None else ''}")
+    ctx.require(n >= 1, "no yield-then-descend loop found in the traversal module")
+
+
 def run(ctx):
+    rule_r10(ctx)
     rule_r9(ctx)
     rule_r5(ctx)
     rule_r8(ctx)
